@@ -52,6 +52,10 @@ pub fn spec(property: &str, tier: &str) -> Option<CheckSpec> {
 		sp.required_probes.push("netsim_runs".to_string());
 		sp.required_probes.push("net_final_head_is_winner".to_string());
 		sp.required_probes.push("net_headers_synced_through_adapter".to_string());
+		if property == "C03" {
+			sp.required_probes.push("mesh_mesh_converged".to_string());
+			sp.rule.push_str("; every eighth case is an E11 mesh case: 2, 3 or 4 (ring) real nodes with their complete p2p stacks, the simulator being every wire between them (frames relayed in seeded link order, held while a link is partitioned and delivered on heal); blocks are mined on a node from that node's own pool and enter the network as a miner's block does (process_block with MINE -> compact block broadcast, header-first relay onwards, compact block / full block / transaction requests between the real nodes), transactions are pushed to a node as the API pushes them and travel on by the nodes' own relay (fluff broadcast by kernel hash, Dandelion stem to the one outbound peer); per step every node's head work never decreases and is a mined block; at quiescence (all links up, one more block on the best head) all nodes have the same head - the most-work block mined - and the same state, equal to the block builder's, and validate(false) passes");
+		}
 		sp.rule.push_str("; one netsim run in four starts with the node far behind: HeaderSync status and Headers messages in chunks (NetToChainAdapter::headers_received -> sync_block_headers), then BodySync status with the first three fifths of the winning chain requested by hash through the real Peer::send_block_request(SYNC) and answered out of order and not always (the TrackingAdapter hands the SYNC option back when the block arrives), before the ordinary traffic continues");
 		if property == "C06" {
 			sp.required_probes.push("net_byzantine_peer_banned".to_string());
@@ -246,6 +250,9 @@ fn spec_inner(property: &str, tier: &str) -> Option<CheckSpec> {
 			sp.rule.push_str("; every other run is a network run (E11 netsim): the node is assembled with its complete p2p stack and the real PoolToNetAdapter; submissions arrive as Transaction / StemTransaction messages or announced by kernel hash (TransactionKernel, answered to the node's GetTransaction), blocks as Block / CompactBlock / header-first messages with the node's requests served by the simulated peer; three network runs in four have an outbound peer, which the node's Dandelion epoch uses as stem relay (the others exercise the fall-back to fluff); acceptance is read from the pool's contents. In those runs every MinePool operation first runs the node's own servers::mining::mine_block::get_block (hook H9): it must return within 20 s with a block inside the weight limit, and a replica opened on a copy of the node's data directory must accept that block once its proof of work is solved");
 			sp.real_components.extend(net_real());
 			sp.real_components.push("network-mode runs: servers::mining::mine_block::get_block / build_block (coinbase burn, difficulty, roots) over the node's chain and pool".into());
+			sp.rule.push_str(". Every fourth case is an E11 mesh case (2-4 real nodes gossiping over simulated wires with partitions, see C03): after every operation every node's txpool, and txpool + stempool, must apply together on that node's own head, while transactions and blocks reach it only through the other nodes' relay");
+			sp.required_probes.push("mesh_node_pool_nonempty_checked".to_string());
+			sp.required_probes.push("mesh_relayed:StemTransaction".to_string());
 			for p in ["netsim_runs", "real_mine_block_built", "real_mine_block_with_transactions", "net_tx_announced_by_kernel_hash", "net_stem_relayed_to_peer", "net_mode_without_relay_peer"] {
 				sp.required_probes.push(p.to_string());
 			}
@@ -1211,7 +1218,13 @@ pub fn run_case(property: &str, tier: &str, seed: u64, case: u64) -> CaseResult 
 				crate::wiresim::c11_case(tier, seed, case)
 			}
 		}
-		"C14" => crate::poolsim::case(tier, seed, case),
+		"C14" => {
+			if case % 4 == 2 {
+				crate::netsim::mesh_case(property, tier, seed, case)
+			} else {
+				crate::poolsim::case(tier, seed, case)
+			}
+		}
 		"C16" => crate::pibdsim::case(tier, seed, case),
 		"C17" => crate::schedsim::case(tier, seed, case),
 		"C18" => crate::dbsim::case(tier, seed, case),
@@ -1246,8 +1259,11 @@ pub fn run_case(property: &str, tier: &str, seed: u64, case: u64) -> CaseResult 
 			}
 		}
 		"C03" | "C06" => {
-			// every fourth case delivers the world through the real p2p stack (E11 netsim)
-			if case % 4 == 3 {
+			// every fourth case delivers the world through the real p2p stack (E11 netsim); for C03 every
+			// eighth is a mesh of real nodes gossiping among themselves
+			if property == "C03" && case % 8 == 5 {
+				crate::netsim::mesh_case(property, tier, seed, case)
+			} else if case % 4 == 3 {
 				crate::netsim::relay_case(property, tier, seed, case)
 			} else {
 				chainsim_case(property, tier, seed, case)
